@@ -1,6 +1,12 @@
 """C05 - see DESIGN.md section 5/C05.  Bounded stand-in (bounded/C05.py) of the property's
-contract on the real code; labelled bounded, never counted as proved."""
+contract on the real code; labelled bounded, never counted as proved.
+
+Deductive part (contracts/labels.py): the helper _split_label_string is proved to cut the
+substrates' label string into one piece per compound, piece k starting where the label
+positions of compounds 0..k-1 end (integer prefix fold, string slices)."""
 from props._runner import run
 
 if __name__ == "__main__":
-    run("C05", "exploration", notes="C05: run-time contract on the real code over an enumerated small scope (bounded stand-in)")
+    run("C05", "exploration", files=["labels.py"],
+        notes="C05: run-time contract on the real code over an enumerated small scope (bounded stand-in, deciding); "
+              "_split_label_string proved for all label strings and label counts")
